@@ -7,6 +7,7 @@ import (
 	"net/netip"
 	"os"
 	"runtime"
+	"runtime/debug"
 	"sync"
 	"sync/atomic"
 	"time"
@@ -155,6 +156,125 @@ func runC09Disc(o *opts) (*summary, error) {
 			"goroutines_before": g0, "goroutines_after": g1, "fds_before": f0, "fds_after": f1,
 			"elapsed_max_ms": int(maxEl / time.Millisecond), "elapsed_min_ms": int(minEl / time.Millisecond), "T_ms": int(timeout / time.Millisecond)}, "quiesce", "overlap-eph")
 		break
+	}
+	// the event listener asked to listen on port 0 (no listen address configured): refused - and nothing is left behind
+	{
+		uz := uhppote.NewUHPPOTE(bind, types.BroadcastAddr{AddrPort: udpAddrPort(bc)}, types.ListenAddr{}, timeout, nil, false)
+		uz2 := uhppote.NewUHPPOTE(bind, types.BroadcastAddr{AddrPort: udpAddrPort(bc)}, types.ListenAddrFrom(netip.AddrFrom4([4]byte{127, 0, 0, 1}), 0), timeout, nil, false)
+		g0, f0 := settle()
+		// (no garbage collection while the attempts are made: a socket that is merely dropped would be closed by its
+		// finaliser sooner or later - "releases its socket" means closed when the call returns, not when the collector comes by)
+		gcp := debug.SetGCPercent(-1)
+		attempts, failed, stuck := 16, 0, 0
+		for i := 0; i < attempts; i++ {
+			ux := []uhppote.IUHPPOTE{uz, uz2}[i%2]
+			q := make(chan os.Signal, 1)
+			done := make(chan error, 1)
+			go func() { done <- ux.Listen(&nullListener{}, q) }()
+			select {
+			case err := <-done:
+				if err != nil {
+					failed++
+				}
+			case <-time.After(500 * time.Millisecond):
+				// (a library that listens on an ephemeral port instead of refusing: stop it, it is no leak)
+				stuck++
+				q <- os.Interrupt
+				select {
+				case <-done:
+				case <-time.After(2 * time.Second):
+				}
+			}
+		}
+		fpeak := countFDs()
+		debug.SetGCPercent(gcp)
+		g1, f1 := settle()
+		if fpeak > f1 {
+			f1 = fpeak
+		}
+		w.put(M{"op": "Quiesce", "what": "listen-on-port-0", "disturbed": true, "calls": attempts, "failed": failed, "stuck": stuck,
+			"goroutines_before": g0, "goroutines_after": g1, "fds_before": f0, "fds_after": f1,
+			"elapsed_max_ms": 0, "elapsed_min_ms": 1 << 20, "T_ms": 0}, "quiesce", "listen-port0")
+	}
+	// a client whose timeout is zero (or negative): every call that gets no answer ends at once - "within its timeout" -
+	// over connected UDP, TCP accept-and-stall and the broadcast path
+	for _, to := range []time.Duration{0, -time.Second} {
+		silentU := listenUDP()
+		silentT, err := net.ListenTCP("tcp4", &net.TCPAddr{IP: net.IPv4(127, 0, 0, 1), Port: 0})
+		if err != nil {
+			silentU.Close()
+			break
+		}
+		silentB := listenUDP()
+		tcpAP := netip.AddrPortFrom(netip.AddrFrom4([4]byte{127, 0, 0, 1}), uint16(silentT.Addr().(*net.TCPAddr).Port))
+		u0 := uhppote.NewUHPPOTE(bind, types.BroadcastAddr{AddrPort: udpAddrPort(silentB)}, types.ListenAddr{}, to, []uhppote.Device{
+			{Name: "u", DeviceID: 405419896, Address: types.ControllerAddr{AddrPort: udpAddrPort(silentU)}, Protocol: "udp"},
+			{Name: "t", DeviceID: 303986753, Address: types.ControllerAddr{AddrPort: tcpAP}, Protocol: "tcp"}}, false)
+		g0, f0 := settle()
+		jm := startJitterMonitor()
+		maxEl := time.Duration(0)
+		for _, serial := range []uint32{405419896, 303986753, 201020304} {
+			done := make(chan time.Duration, 1)
+			t0 := time.Now()
+			go func() { u0.GetTime(serial); done <- time.Since(t0) }()
+			el := 3 * time.Second
+			select {
+			case el = <-done:
+			case <-time.After(3 * time.Second):
+			}
+			if el > maxEl {
+				maxEl = el
+			}
+		}
+		jm.stop()
+		silentU.Close()
+		silentT.Close()
+		silentB.Close()
+		time.Sleep(50 * time.Millisecond)
+		g1, f1 := settle()
+		w.put(M{"op": "Quiesce", "what": fmt.Sprintf("timeout-%v", to), "disturbed": jm.max() > 100000, "jitter_us": jm.max(), "calls": 3,
+			"goroutines_before": g0, "goroutines_after": g1, "fds_before": f0, "fds_after": f1,
+			"elapsed_max_ms": int(maxEl / time.Millisecond), "elapsed_min_ms": 1 << 20, "T_ms": 0, "slack_ms": 400}, "quiesce", fmt.Sprintf("timeout-%v", to))
+	}
+	// a LONG discovery window (1.3 s: longer than any constant a driver may have lying around): the reply that arrives at
+	// 1.15 s is listed, and a silent window yields an empty list, not an error
+	{
+		long := 1300 * time.Millisecond
+		lb := listenUDP()
+		var answer int32 = 1
+		go func() {
+			buf := make([]byte, 2048)
+			for {
+				_, src, err := lb.ReadFromUDP(buf)
+				if err != nil {
+					return
+				}
+				if atomic.LoadInt32(&answer) != 0 {
+					go func() {
+						time.Sleep(1150 * time.Millisecond)
+						lb.WriteToUDP(discoveryDatagram(rng, lt, "valid2", nil), src)
+					}()
+				}
+			}
+		}()
+		ul := uhppote.NewUHPPOTE(bind, types.BroadcastAddr{AddrPort: udpAddrPort(lb)}, types.ListenAddr{}, long, nil, false)
+		for _, silent := range []bool{false, true} {
+			if silent {
+				atomic.StoreInt32(&answer, 0)
+			}
+			jm := startJitterMonitor()
+			t0 := time.Now()
+			v, err := ul.GetDevices()
+			el := time.Since(t0)
+			jm.stop()
+			want := 1
+			if silent {
+				want = 0
+			}
+			w.put(M{"op": "Window", "what": map[bool]string{false: "reply-at-1150ms-of-1300ms", true: "silence-for-1300ms"}[silent], "listed": len(v), "expected": want, "failed": err != nil,
+				"disturbed": jm.max() > 100000, "elapsed_ms": int(el / time.Millisecond), "T_ms": int(long / time.Millisecond)}, "window", fmt.Sprintf("long-%v", silent))
+		}
+		lb.Close()
 	}
 	// a discovery that cannot bind its fixed port fails - and the next one, once the port is free, runs as if nothing had happened
 	{
